@@ -29,6 +29,8 @@ def run(drv, events):
             return ctx.x + ctx.y
         return ctx.y
 
+    probes = []
+
     def wh(c):
         # all _while calls of one loop must come from one source line (the API recognises a loop by its line)
         return _while(c, ctx)
@@ -38,7 +40,12 @@ def run(drv, events):
             if a == "if":
                 _if(cond(ev["c"], k), ctx)
             elif a == "elif":
-                _elif(lambda ev=ev, k=k: cond(ev["c"], k), ctx)
+                def elif_cond(ev=ev, k=k):
+                    # what guard is active while the condition of an _elif is evaluated?  (-1: none)
+                    g = drv.guard_state()
+                    probes.append(g["v"] if g["has"] else -1)
+                    return cond(ev["c"], k)
+                _elif(elif_cond, ctx)
             elif a == "else":
                 _else(ctx)
             elif a == "endif":
@@ -53,4 +60,5 @@ def run(drv, events):
                 setattr(ctx, ev["v"], expr(ev["e"]))
     finally:
         ctx.stack.clear()
+        drv.extra = {"probes": probes}
     return [ctx.vals.get(n) for n in ("x", "y", "z")]
